@@ -324,7 +324,11 @@ pub trait String:
         }
 
         let new_len = self.len() - len;
-        unsafe { self.data_mut()[new_len].write(0) };
+        // a full string whose storage ends with the last character keeps its terminator
+        // outside of data, see StaticString
+        if new_len < unsafe { self.data_mut() }.len() {
+            unsafe { self.data_mut()[new_len].write(0) };
+        }
         unsafe { self.set_len(new_len as u64) };
 
         true
